@@ -17,6 +17,8 @@ from concurrent.futures import ProcessPoolExecutor
 VERIF = pathlib.Path(__file__).resolve().parent.parent
 SEEDED = VERIF / "seeded"
 PROPS = ["C01", "C03", "C04", "C05", "C07", "C08", "C09", "C10", "C11", "C12", "C13", "C14", "C15", "C16", "C17", "C18", "C20"]
+if os.environ.get("SA_PROPS"):  # restrict the checks run (re-measurement after a change to some rules)
+    PROPS = os.environ["SA_PROPS"].split(",")
 
 
 def run_one(seed: str) -> dict:
@@ -54,7 +56,7 @@ def main():
         args = args[1:]
     sys.argv = [sys.argv[0]] + args
     seeds = sys.argv[1:] or sorted(p.name for p in SEEDED.iterdir() if (p / "patch.diff").exists())
-    with ProcessPoolExecutor(max_workers=8) as ex:
+    with ProcessPoolExecutor(max_workers=int(os.environ.get("SA_JOBS", "8"))) as ex:
         rows = list(ex.map(run_one, seeds))
     matrix = {r["seed"]: r for r in rows}
     if not sys.argv[1:] or out_name != "MATRIX.json":
